@@ -51,7 +51,8 @@ def run(ctx):
         iac = args.get("iterative_auth_check", [])
         ok1 = len(iac) == 2 and iac[0][0] == "rules" and iac[0][1].startswith("ruma_state_res::reverse_topological_power_sort(") and iac[0][1].endswith(".Ok.0") and iac[0][2] == SEP + ".0"
         ms = args.get("mainline_sort", [[]])[0]
-        ok2 = len(ms) == 3 and ms[0].startswith("Iterator::collect(Iterator::cloned(Iterator::filter(HashSet::iter(") and \
+        loop_form = remaining_by_loop(w, f)
+        ok2 = len(ms) == 3 and (ms[0].startswith("Iterator::collect(Iterator::cloned(Iterator::filter(HashSet::iter(") or (ms[0] == "Vec::new()" and loop_form)) and \
             "HashMap::get(ruma_state_res::iterative_auth_check(" in ms[1] and "StateEventType::RoomPowerLevels" in ms[1]
         ok3 = len(iac) == 2 and iac[1][1].startswith("ruma_state_res::mainline_sort(") and iac[1][1].endswith(".Ok.0") and iac[1][2].startswith("ruma_state_res::iterative_auth_check(rules, ruma_state_res::reverse_topological_power_sort(") and iac[1][2].endswith(".Ok.0")
         ctx.check(ok1, "C07.pipeline", "C07.pipeline:power-events-auth", w.where(f), bad_msg=f"first iterative_auth_check gets {iac[:1]}"[:300])
@@ -65,7 +66,7 @@ def run(ctx):
     clos = {fn["path"]: fn for fn in w.all_fns() if fn["path"].startswith(SR + "resolve::{closure") and "body" in fn}
     calls_by_clo = {p: [M.callee_name(c) for _, c in M.calls(fn["body"])] for p, fn in clos.items()}
     ctx.check(any(SR + "is_power_event_id" in cs for cs in calls_by_clo.values()), "C07.pipeline", "C07.pipeline:power-filter", w.where(f), bad_msg="control events are not selected by is_power_event_id")
-    ctx.check(any(any(re.search(r"HashSet::<[^>]*>::contains$", c) for c in cs) for cs in calls_by_clo.values()), "C07.pipeline", "C07.pipeline:remaining-filter", w.where(f),
+    ctx.check(any(any(re.search(r"HashSet::<[^>]*>::contains$", c) for c in cs) for cs in calls_by_clo.values()) or remaining_by_loop(w, f), "C07.pipeline", "C07.pipeline:remaining-filter", w.where(f),
               bad_msg="remaining events are not `full set minus sorted power events`")
 
     # ---- power events -----------------------------------------------------------------------------------------
@@ -200,8 +201,13 @@ def run(ctx):
             cur = nxt[0]
         good = sw is not None
         if good:
-            ok_targets = [b for v, b in sw[1][2] if v == 0]
-            other = [b for v, b in sw[1][2] if v != 0] + [sw[1][3]]
+            # `match r { Ok(()) => .., Err(e) => .. }` lists discriminant 0; `if let Err(e) = r { .. } else { .. }` lists 1 and leaves Ok to `otherwise`
+            if any(v == 0 for v, b in sw[1][2]):
+                ok_targets = [b for v, b in sw[1][2] if v == 0]
+                other = [b for v, b in sw[1][2] if v != 0] + [sw[1][3]]
+            else:
+                ok_targets = [sw[1][3]] if any(v == 1 for v, b in sw[1][2]) else []
+                other = [b for v, b in sw[1][2]]
             good = bool(ok_targets) and cfg.reaches(ok_targets[0], [insb]) and not any(cfg.reaches(o, [insb], avoid=[sw[0], acb]) for o in other if o not in ok_targets)
         keyx = json.dumps(PC.expr(body, defs, ins[0][1]["args"][1]))
         good = good and "with_state_key" in keyx and "Event::event_type" in keyx
@@ -210,15 +216,25 @@ def run(ctx):
     # ---- set algebra -----------------------------------------------------------------------------------------------------
     ctx.rule("C07.sets", "get_auth_chain_diff keeps an id iff it is in fewer sets than there are sets; separate: unconflicted iff the (key, id) pair occurs in every state set")
     clos = [fn for fn in w.all_fns() if fn["path"].startswith(SR + "get_auth_chain_diff::{closure") and "body" in fn]
-    okd = False
+    # accepted shapes: filter_map(|(id, count)| (count < n).then_some(id))  /  filter(|(_, count)| *count < n).map(|(id, _)| id)
+    select = pred = proj = False
     for cf in clos:
         dx = D.Dex(w.lookup, adt_discr=w.adt_discr, ctors=w.ctors)
-        for p in dx.paths(cf, [D.sym("env"), ("tup", (D.sym("id"), D.sym("count")))]):
+        ps = dx.paths(cf, [D.sym("env"), ("tup", (D.sym("id"), D.sym("count")))])
+        for p in ps:
             for a, t in p.conds:
                 if a[0] == "cmp" and D.show(a[2]) == "count" and "num_sets" in D.show(a[3]) and t and D.show(p.ret) == "Option::Some(id)":
-                    okd = True
-            if not p.conds and D.show(p.ret).replace(" ", "") in ("bool::then_some(count<env.num_sets,id)",):
-                okd = True
+                    select = True
+            r = D.show(p.ret).replace(" ", "")
+            if not p.conds and r in ("bool::then_some(count<env.num_sets,id)",):
+                select = True
+            if not p.conds and len(ps) == 1 and r in ("count<env.num_sets", "count<env._ref__num_sets"):
+                pred = True
+            if not p.conds and len(ps) == 1 and r == "id":
+                proj = True
+    gf = w.fn(SR + "get_auth_chain_diff")
+    adaptors = {M.callee_name(c).rsplit("::", 1)[-1] for _, c in M.calls(gf["body"])}
+    okd = (select and "filter_map" in adaptors) or (pred and proj and {"filter", "map"} <= adaptors)
     ctx.check(okd, "C07.sets", "C07.sets:auth-diff", w.where(w.fn(SR + "get_auth_chain_diff")), bad_msg="auth difference is not `count < num_sets`")
     f = w.fn(SR + "separate")
     eqs = []
@@ -235,3 +251,54 @@ def run(ctx):
     ctx.check(good and len(eqs) == 1, "C07.sets", "C07.sets:separate", w.where(f), bad_msg="unconflicted test is not `occurrences == number of state sets`")
     ctx.assumptions += ["equality of the resolved state with the specification's algorithm on all histories is not decided"]
     ctx.samples += [{"clause": "unconflicted state written last", "effect": "HashMap::extend(resolved_state, clean) is the final effect before Ok"}]
+
+
+def remaining_by_loop(w, f):
+    """Loop form of `all_conflicted.iter().filter(|id| !sorted.contains(id)).cloned().collect()`: the vector handed to mainline_sort is a
+    Vec::new() that receives exactly one push, of a clone of the element of a loop over the full conflicted set, under a dominating
+    `sorted_power_events.contains(element) == false`."""
+    import json as _json
+    body = f["body"]
+    defs = PC.roots(body)
+    cfg = M.Cfg(body)
+    target = None
+    for bi, c in M.calls(body):
+        if M.callee_name(c).endswith("ruma_state_res::mainline_sort"):
+            e = PC.expr(body, defs, c["args"][0])
+            while e[0] == "call" and e[1].rsplit("::", 1)[-1] in ("deref", "as_slice", "as_ref", "borrow") and len(e[2]) == 1:
+                e = e[2][0]
+            target = e
+    if not (target and target[0] == "call" and target[1].endswith("Vec::<T>::new")):
+        return False
+    pushes = []
+    for bi, c in M.calls(body):
+        if M.callee_name(c).endswith("::push") and "Vec" in M.callee_name(c):
+            recv = PC.expr(body, defs, c["args"][0])
+            if recv == target:
+                pushes.append((bi, PC.expr(body, defs, c["args"][1])))
+    if len(pushes) != 1:
+        return False
+    bi, val = pushes[0]
+    if not (val[0] == "call" and val[1].rsplit("::", 1)[-1] == "clone" and len(val[2]) == 1):
+        return False
+    elem = val[2][0]
+    et = _json.dumps(elem)
+    if not ("Iterator>::next" in et and "get_auth_chain_diff" in et):
+        return False       # not an element of a loop over the full conflicted set
+    for g, truth in PC.dominating_guards(cfg, body, defs, bi):
+        if g[0] == "call" and g[1].rsplit("::", 1)[-1] == "contains" and "HashSet" in g[1] and not truth and len(g[2]) == 2:
+            probe = g[2][1]
+            while probe[0] == "call" and probe[1].rsplit("::", 1)[-1] in ("borrow", "as_ref", "deref") and len(probe[2]) == 1:
+                probe = probe[2][0]
+            if "reverse_topological_power_sort" in _json.dumps(g[2][0]) and _same_expr(probe, elem):
+                return True
+    return False
+
+
+def _same_expr(a, b):
+    """Structural equality of two PC.expr trees; a depth-truncated subtree ("?",) matches anything."""
+    if a == ("?",) or b == ("?",):
+        return True
+    if isinstance(a, tuple) and isinstance(b, tuple):
+        return len(a) == len(b) and all(_same_expr(x, y) for x, y in zip(a, b))
+    return a == b
